@@ -748,6 +748,7 @@ func c09FreeReader(rd pipe.Reader, fc *freeCase, rng *prng.R, got *uint64, rerrO
 				*bad = int64(pos) + int64(i)
 			}
 			pos += uint64(k)
+			atomic.StoreUint64(got, pos)
 		}
 		if err != nil {
 			*rerrOut = err
@@ -806,6 +807,11 @@ func runFree(r *res.R, fc *freeCase, scratch string) {
 		sr, _ := gstate.Of("ppkg.c09FreeReader")
 		if (sw == gstate.Parked || sw == gstate.Gone) && (sr == gstate.Parked || sr == gstate.Gone) {
 			r.Violation("C09|"+fc.Backend+"|free|outcome=deadlock", fmt.Sprintf("writer %s and reader %s: both sides parked in sync.Cond.Wait / gone, nobody can wake them", sw, sr), fc)
+		} else if sw == gstate.Gone && sr != gstate.Parked && sr != gstate.Gone && atomic.LoadUint64(&got) == written && fc.CloseBy == "writer" {
+			// the writer has closed, the reader has drained every byte that was written, and 20 s later its Read calls
+			// still come back without the writer's error: "... then gets the writer's error" never happens
+			r.Violation("C09|"+fc.Backend+"|free|outcome=no-error-after-writer-close", fmt.Sprintf("writer closed after %d bytes, reader has received all %d, and its reads keep returning without an error (reader %s)", written, written, sr), fc)
+			atomic.StoreInt32(&freeWatchdogs, 2)
 		} else {
 			r.Inconcl(fmt.Sprintf("free-running watchdog: writer %s reader %s", sw, sr))
 		}
